@@ -603,7 +603,30 @@ int verif_case(const uint8_t *data, size_t size, Case &c) {
     uint8_t mode = r.u8();
     // FE, F8: generated long haystack (41..8192 bytes); F9..FC: generated big haystack (8..48 KB); FD: directed long (explicit content)
     if (mode >= 0xF8 && mode <= 0xFE) return run_long(r, c, mode == 0xF8 ? 0xFE : mode);
-    if (mode == 0xFF) {
+    if (mode >= 0xD0 && mode <= 0xF7) {
+        // fold-stress layout: 8..96 bytes over pairs of bytes that differ only in bit 0x20 - letters, the neighbours of the letter range
+        // (@ ` [ { \\ | ] } ^ ~ _ DEL), digits/punctuation, control bytes, and bytes >= 0x80 - so that whatever folds case several bytes at a
+        // time (or by bit tricks) meets every carry / borrow / sign situation.  The needle is a slice of 1..40 bytes with 0..3 of its bytes XOR 0x20:
+        // a match under case-insensitive search exactly when every changed byte is a letter.
+        static const unsigned char FOLD[] = {'a', 'A', 'z', 'Z', 'm', 'M', '@', '`', '[', '{', '\\', '|', ']', '}', '^', '~', '_', 0x7F, '0', 0x10, '9', 0x19, ' ', 0x00, '!', 0x01,
+                                             0xC1, 0xE1, 0xDA, 0xFA, 0xC0, 0xE0, 0xDF, 0xFF, 0x80, 0xA0, 0x9F, 0xBF, 0xC3, 0xE3, 0xE9, 0xC9};
+        const size_t hl = 8 + (size_t)r.range(0, 88);
+        const size_t nl0 = 1 + (size_t)r.range(0, 39);
+        const unsigned flips = (unsigned)r.range(0, 3), np1 = r.u8(), f1 = r.u8(), f2 = r.u8(), f3 = r.u8();
+        unsigned ssel = (unsigned)r.range(0, 7), sv = r.u8();
+        unsigned lsel = (unsigned)r.range(0, 7), lv = r.u8();
+        const bool lettery = r.flag();           // mostly letters with a few neighbours, or the whole table
+        for (size_t i = 0; i < hl; i++) { unsigned v = r.u8(); k.hay += (char)(lettery && (v & 0xC0) ? FOLD[v % 6] : FOLD[v % sizeof FOLD]); }
+        const size_t nl = nl0 > hl ? hl : nl0, at = np1 % (hl - nl + 1);
+        k.needle = k.hay.substr(at, nl);
+        const unsigned fp[3] = {f1, f2, f3};
+        for (unsigned i = 0; i < flips; i++) k.needle[fp[i] % nl] = (char)(k.needle[fp[i] % nl] ^ 0x20);
+        ll first = ref::find(k.hay, 0, k.needle, true), last = ref::find_last(k.hay, (size_t)-1, k.needle, true);
+        k.start = pick_position(ssel, sv, hl, first, k.needle.size(), false);
+        k.limit = pick_position(lsel, lv, hl, last, k.needle.size(), true);
+        c.label("fold-stress"); c.label(nl >= 8 ? "fold-stress:needle>=8" : "fold-stress:needle<8");
+        if (ref::find(k.hay, 0, k.needle, true) != ref::find(k.hay, 0, k.needle, false)) c.label("ci-answer-differs");
+    } else if (mode == 0xFF) {
         size_t hl = r.u8(), nl = r.u8();
         k.null_needle = (r.u8() & 1) != 0;
         k.start = (size_t)r.bits64(); k.limit = (size_t)r.bits64();
@@ -678,7 +701,7 @@ int verif_case(const uint8_t *data, size_t size, Case &c) {
     if (w.false_start) c.label("nt:first-byte-hit-fails-later");
     if (w.straddle_start || w.straddle_limit) c.label("nt:occurrence-straddles-start/limit");
     if (w.past_end) c.label("nt:prefix-runs-past-end");
-    if (mode != 0xFF) {
+    if (mode != 0xFF && !(mode >= 0xD0 && mode <= 0xF7)) {
         c.label(k.start == (size_t)-1 ? "start:SIZE_MAX" : k.start > k.hay.size() ? "start:past-end" : k.start == k.hay.size() ? "start:at-end" : "start:inside");
         c.label(k.limit == (size_t)-1 ? "limit:SIZE_MAX" : k.limit > k.hay.size() ? "limit:past-end" : k.limit == k.hay.size() ? "limit:at-end" : "limit:inside");
         if (ref::find(k.hay, k.start, k.needle, true) >= 0 && ref::find(k.hay, k.start, k.needle, false) != ref::find(k.hay, k.start, k.needle, true)) c.label("ci-answer-differs");
